@@ -1,10 +1,18 @@
 import GeodeVerif.GenR.Convert
 import GeodeVerif.Lemmas.PyRSimp
+import GeodeVerif.Spec.Krueger
 import Mathlib.Analysis.SpecialFunctions.Arsinh
 import Mathlib.Analysis.SpecialFunctions.Trigonometric.Arctan
+import Mathlib.Analysis.SpecialFunctions.Trigonometric.DerivHyp
+import Mathlib.Analysis.SpecialFunctions.Log.Deriv
+import Mathlib.Analysis.SpecialFunctions.Sqrt
+import Mathlib.Analysis.Calculus.Deriv.Pow
+import Mathlib.Analysis.Calculus.Deriv.Inv
 import Mathlib.Tactic.FieldSimp
 import Mathlib.Tactic.Ring
 import Mathlib.Tactic.Linarith
+import Mathlib.Tactic.LinearCombination
+import Mathlib.Tactic.NormNum
 import Mathlib.Tactic.Positivity
 /-!
 # C02 — grid → geographic (`GenR.Convert.grid2geo`) inverts the forward conversion
@@ -233,6 +241,19 @@ theorem newton_loop_ne_none (ell : Ellipsoid) (t1 : ℝ) :
 
 /-! ## The generated `grid2geo` is the composition of the pieces above -/
 
+/-- closes `(match W₁ with | none => … | some (i,t,d) => …) = finish … W₂` where `W₁` (generated) and
+`W₂` (vocabulary) are definitionally equal `whileLoop` terms -/
+local macro "close_loop" : tactic => `(tactic| (
+  split
+  · rename_i heq
+    generalize hW2 : whileLoop 200 newtonCond _ _ = W2
+    have : W2 = none := hW2.symm.trans heq
+    subst this; rfl
+  · rename_i i t d heq
+    generalize hW2 : whileLoop 200 newtonCond _ _ = W2
+    have : W2 = some (i, t, d) := hW2.symm.trans heq
+    subst this; rfl))
+
 theorem grid2geo_spec (zone east north : ℝ) (h : String) (ell : Ellipsoid) (prj : Projection)
     (hv : Valid zone east north h prj) :
     grid2geo zone east north h ell prj =
@@ -256,50 +277,18 @@ theorem grid2geo_spec (zone east north : ℝ) (h : String) (ell : Ellipsoid) (pr
       Except.bind]
     by_cases hN : strLower h = "north"
     · simp only [if_pos hN]
-      split
-      · rename_i heq
-        generalize hW2 : whileLoop 200 newtonCond _ _ = W2
-        have : W2 = none := hW2.symm.trans heq
-        subst this; rfl
-      · rename_i i t d heq
-        generalize hW2 : whileLoop 200 newtonCond _ _ = W2
-        have : W2 = some (i, t, d) := hW2.symm.trans heq
-        subst this; rfl
+      close_loop
     · simp only [if_neg hN]
-      split
-      · rename_i heq
-        generalize hW2 : whileLoop 200 newtonCond _ _ = W2
-        have : W2 = none := hW2.symm.trans heq
-        subst this; rfl
-      · rename_i i t d heq
-        generalize hW2 : whileLoop 200 newtonCond _ _ = W2
-        have : W2 = some (i, t, d) := hW2.symm.trans heq
-        subst this; rfl
+      close_loop
   · rw [if_neg hp] at hz
     have hz' : ¬ (trunc zone < 0 ∨ trunc zone > 60) := by
       rintro (h1 | h1) <;> linarith [hz.1, hz.2]
     simp only [if_neg hp, if_neg hz', if_neg he', if_neg hn', if_neg hh', Except.bind]
     by_cases hN : strLower h = "north"
     · simp only [if_pos hN]
-      split
-      · rename_i heq
-        generalize hW2 : whileLoop 200 newtonCond _ _ = W2
-        have : W2 = none := hW2.symm.trans heq
-        subst this; rfl
-      · rename_i i t d heq
-        generalize hW2 : whileLoop 200 newtonCond _ _ = W2
-        have : W2 = some (i, t, d) := hW2.symm.trans heq
-        subst this; rfl
+      close_loop
     · simp only [if_neg hN]
-      split
-      · rename_i heq
-        generalize hW2 : whileLoop 200 newtonCond _ _ = W2
-        have : W2 = none := hW2.symm.trans heq
-        subst this; rfl
-      · rename_i i t d heq
-        generalize hW2 : whileLoop 200 newtonCond _ _ = W2
-        have : W2 = some (i, t, d) := hW2.symm.trans heq
-        subst this; rfl
+      close_loop
 
 /-! ## C02.5 validation -/
 
@@ -597,7 +586,10 @@ theorem hemisign_south (h : String) (hs : strLower h = "south") : hemisign h = 1
 
 /-- C02.4 `hemisphere_mirror`, any projection (false northing `FN = prj.falsenorth`), any ellipsoid:
 if the southern call at northing `FN − N` returns `(lat, lon, psf, conv)` and `0 ≤ N ≤ 10⁷`, then the
-northern call at northing `N` returns `(−lat, lon, psf, −conv)`. -/
+northern call at northing `N` returns `(−lat, lon, psf, −conv)`.
+(No `cmscale ≠ 0` / `rect_radius ≠ 0` guard is needed: the two calls evaluate literally the same
+expressions after `mirror_y`; for `cmscale = 0` Python raises `ZeroDivisionError` in both calls,
+which the real-number model does not represent.) -/
 theorem hemisphere_mirror (zone east N : ℝ) (hN hS : String) (ell : Ellipsoid) (prj : Projection)
     (hn : strLower hN = "north") (hs : strLower hS = "south")
     (hN0 : 0 ≤ N) (hN1 : N ≤ 10000000) (lat lon psf conv : ℝ)
@@ -624,6 +616,23 @@ theorem hemisphere_mirror (zone east N : ℝ) (hN hS : String) (ell : Ellipsoid)
   obtain ⟨h1, h2, h3, h4⟩ := hout
   rw [← h1, ← h2, ← h3, ← h4]
   simp only [neg_mul, one_mul]
+
+/-- the converse direction: from the northern call to the southern one -/
+theorem hemisphere_mirror_rev (zone east N : ℝ) (hN hS : String) (ell : Ellipsoid) (prj : Projection)
+    (hn : strLower hN = "north") (hs : strLower hS = "south")
+    (hS0 : 0 ≤ prj.falsenorth - N) (hS1 : prj.falsenorth - N ≤ 10000000) (lat lon psf conv : ℝ)
+    (hnorth : grid2geo zone east N hN ell prj = .ok (lat, lon, psf, conv)) :
+    grid2geo zone east (prj.falsenorth - N) hS ell prj = .ok (-lat, lon, psf, -conv) := by
+  have hvN : Valid zone east N hN prj := ((validation_logic _ _ _ _ ell _).2.1).mp ⟨_, hnorth⟩
+  have hvS : Valid zone east (prj.falsenorth - N) hS prj :=
+    ⟨hvN.zone, hvN.east, ⟨hS0, hS1⟩, Or.inr hs⟩
+  obtain ⟨⟨a, b, c, d⟩, hr⟩ := ((validation_logic _ _ _ _ ell _).2.1).mpr hvS
+  have h2 := hemisphere_mirror zone east N hN hS ell prj hn hs hvN.north.1 hvN.north.2 a b c d hr
+  rw [h2] at hnorth
+  have h3 := Except.ok.inj hnorth
+  simp only [Prod.mk.injEq] at h3
+  obtain ⟨e1, e2, e3, e4⟩ := h3
+  rw [hr, ← e1, ← e2, ← e3, ← e4, neg_neg, neg_neg]
 
 /-- the UTM instance with the literal strings: `grid2geo z E (10⁷ − N) "south"` versus
 `grid2geo z E N "north"` -/
@@ -657,7 +666,7 @@ theorem gs_inverse_T (T ω : ℝ) (hω1 : -(Real.pi / 2) < ω) (hω2 : ω < Real
     rw [this, Real.sinh_arsinh]
   have h1 : Real.sqrt (1 + (T / Real.cos ω) ^ 2) = D / Real.cos ω := by
     rw [show 1 + (T / Real.cos ω) ^ 2 = (D / Real.cos ω) ^ 2 by
-      rw [div_pow, div_pow, hDsq]; field_simp]
+      rw [div_pow, div_pow, hDsq]; field_simp; ring]
     exact Real.sqrt_sq (div_pos hDpos hc).le
   have hcos : Real.cos xi1 = Real.cos ω / D := by
     simp only [xi1, Real.cos_arctan, h1]; field_simp
@@ -692,4 +701,270 @@ theorem gs_inverse (χ ω : ℝ) (hχ : |χ| < Real.pi / 2) (hω : |ω| < Real.p
   rw [a]
   exact Real.arctan_tan (abs_lt.mp hχ).1 (abs_lt.mp hχ).2
 
+/-! ## C02.1 the β coefficients against the independent Krüger–Karney table -/
+
+/-- deviation of the code's `b2` from −β₁(n): the innermost Horner factor of `b2` lacks a `* nval`,
+which moves only the n⁶, n⁷, n⁸ coefficients -/
+noncomputable def delta1 (n : ℝ) : ℝ :=
+  n ^ 6 * (1 - n) * (37845269 - 31777436 * n) / 270950400
+
+theorem delta1_expand (n : ℝ) :
+    delta1 n = (37845269 * n ^ 6 - 69622705 * n ^ 7 + 31777436 * n ^ 8) / 270950400 := by
+  unfold delta1; ring
+
+/-- C02.1 `beta_vs_ref`: the code ADDS `b_j·sin 2jξ…`, Karney's convention subtracts `β_j`; so
+`b_j = −β_j`.  Exact for j = 2..8; for j = 1 exact up to the explicit `delta1`. -/
+theorem beta_vs_ref (ell : Ellipsoid) :
+    (beta_coeff ell).1 = -Spec.Krueger.beta 1 ell.n + delta1 ell.n ∧
+    (beta_coeff ell).2.1 = -Spec.Krueger.beta 2 ell.n ∧
+    (beta_coeff ell).2.2.1 = -Spec.Krueger.beta 3 ell.n ∧
+    (beta_coeff ell).2.2.2.1 = -Spec.Krueger.beta 4 ell.n ∧
+    (beta_coeff ell).2.2.2.2.1 = -Spec.Krueger.beta 5 ell.n ∧
+    (beta_coeff ell).2.2.2.2.2.1 = -Spec.Krueger.beta 6 ell.n ∧
+    (beta_coeff ell).2.2.2.2.2.2.1 = -Spec.Krueger.beta 7 ell.n ∧
+    (beta_coeff ell).2.2.2.2.2.2.2 = -Spec.Krueger.beta 8 ell.n := by
+  unfold beta_coeff
+  simp only [Spec.Krueger.beta, delta1, pown_def]
+  refine ⟨?_, ?_, ?_, ?_, ?_, ?_, ?_, ?_⟩ <;> ring
+
+theorem delta1_bounds (n : ℝ) (h0 : 0 ≤ n) (h1 : n ≤ 1 / 150) :
+    |delta1 n| ≤ (7 / 50) * n ^ 6 ∧ (137 / 1000) * n ^ 6 ≤ delta1 n := by
+  have hn6 : 0 ≤ n ^ 6 := by positivity
+  have e : delta1 n = n ^ 6 * ((1 - n) * (37845269 - 31777436 * n) / 270950400) := by
+    unfold delta1; ring
+  have hu : (1 - n) * (37845269 - 31777436 * n) / 270950400 ≤ 7 / 50 := by
+    rw [div_le_iff₀ (by norm_num)]
+    nlinarith
+  have hl : 137 / 1000 ≤ (1 - n) * (37845269 - 31777436 * n) / 270950400 := by
+    rw [le_div_iff₀ (by norm_num)]
+    nlinarith
+  have hpos : 0 ≤ delta1 n := by rw [e]; apply mul_nonneg hn6; linarith
+  refine ⟨?_, ?_⟩
+  · rw [abs_of_nonneg hpos, e, mul_comm (7 / 50 : ℝ)]
+    exact mul_le_mul_of_nonneg_left hu hn6
+  · rw [e, mul_comm (137 / 1000 : ℝ)]
+    exact mul_le_mul_of_nonneg_left hl hn6
+
+/-- `delta1_small`: |δ₁(n)| ≤ 0.14·n⁶ (hence ≤ n⁶/5) on 0 ≤ n ≤ 1/150 -/
+theorem delta1_small (n : ℝ) (h0 : 0 ≤ n) (h1 : n ≤ 1 / 150) : |delta1 n| ≤ (7 / 50) * n ^ 6 :=
+  (delta1_bounds n h0 h1).1
+
+/-- the deviation is genuinely there: δ₁(n) ≥ 0.137·n⁶ > 0 for 0 < n ≤ 1/150, so the code's first
+coefficient is NOT −β₁ -/
+theorem delta1_ne_zero (n : ℝ) (h0 : 0 < n) (h1 : n ≤ 1 / 150) : delta1 n ≠ 0 := by
+  have := (delta1_bounds n h0.le h1).2
+  have hn6 : 0 < n ^ 6 := by positivity
+  intro h; rw [h] at this; nlinarith
+
+/-- the shipped GRS80 ellipsoid is inside the range of `delta1_small` -/
+example : 0 ≤ grs80.n ∧ grs80.n ≤ 1 / 150 := by
+  have : grs80.n = (1 / dec 298257222101 9) / (2 - 1 / dec 298257222101 9) := rfl
+  rw [this]
+  simp only [dec]
+  norm_num
+
+/-! ## C02.3 (stretch) `f1tn` is the derivative of the Newton target: the loop is Newton's method -/
+
+theorem dec_5_1 : dec 5 1 = 1 / 2 := by simp [dec]; norm_num
+
+theorem abs_lt_sqrt_one_add_sq (x : ℝ) : |x| < Real.sqrt (1 + x ^ 2) := by
+  rw [← Real.sqrt_sq (abs_nonneg x), sq_abs]
+  exact Real.sqrt_lt_sqrt (sq_nonneg x) (by linarith)
+
+theorem hasDerivAt_sqrt_one_add_sq (t : ℝ) :
+    HasDerivAt (fun x : ℝ => Real.sqrt (1 + x ^ 2)) (t / Real.sqrt (1 + t ^ 2)) t := by
+  have hpos : (0 : ℝ) < 1 + t ^ 2 := by positivity
+  have h := (((hasDerivAt_id t).fun_pow 2).const_add 1).sqrt (ne_of_gt hpos)
+  refine h.congr_deriv ?_
+  simp only [id]
+  field_simp
+  ring
+
+/-- |e·t/√(1+t²)| < 1 for 0 ≤ e < 1: the `log` in `sigma` has a positive argument -/
+theorem sigx_abs_lt_one (e t : ℝ) (he0 : 0 ≤ e) (he1 : e < 1) :
+    |e * t / Real.sqrt (1 + t ^ 2)| < 1 := by
+  have hpos : (0 : ℝ) < 1 + t ^ 2 := by positivity
+  have hw : 0 < Real.sqrt (1 + t ^ 2) := Real.sqrt_pos.mpr hpos
+  have ht := abs_lt_sqrt_one_add_sq t
+  rw [abs_div, abs_mul, abs_of_nonneg he0, abs_of_pos hw, div_lt_one hw]
+  calc e * |t| ≤ 1 * |t| := mul_le_mul_of_nonneg_right he1.le (abs_nonneg t)
+    _ = |t| := one_mul _
+    _ < _ := ht
+
+/-- dσ/dt = √(1+σ²)·e² / (√(1+t²)·(1+(1−e²)t²)) -/
+theorem sigma_hasDerivAt (e t : ℝ) (he0 : 0 ≤ e) (he1 : e < 1) :
+    HasDerivAt (fun x => grid2geo_sigma x e)
+      (Real.sqrt (1 + grid2geo_sigma t e ^ 2) * e ^ 2
+        / (Real.sqrt (1 + t ^ 2) * (1 + (1 - e ^ 2) * t ^ 2))) t := by
+  have hpos : (0 : ℝ) < 1 + t ^ 2 := by positivity
+  set w := Real.sqrt (1 + t ^ 2) with hwdef
+  have hw : 0 < w := Real.sqrt_pos.mpr hpos
+  have hw2 : w ^ 2 = 1 + t ^ 2 := Real.sq_sqrt hpos.le
+  have hwd := hasDerivAt_sqrt_one_add_sq t
+  rw [← hwdef] at hwd
+  have hu : HasDerivAt (fun x : ℝ => e * x / Real.sqrt (1 + x ^ 2)) (e / w ^ 3) t := by
+    have h := ((hasDerivAt_id t).const_mul e).fun_div hwd (ne_of_gt hw)
+    rw [← hwdef] at h
+    refine h.congr_deriv ?_
+    simp only [id]
+    field_simp
+    linear_combination e * hw2
+  have hult := sigx_abs_lt_one e t he0 he1
+  rw [← hwdef] at hult
+  have hu1 : 0 < 1 - e * t / w := by linarith [(abs_lt.mp hult).2]
+  have hu2 : 0 < 1 + e * t / w := by linarith [(abs_lt.mp hult).1]
+  have hD : 1 + (1 - e ^ 2) * t ^ 2 = w ^ 2 - e ^ 2 * t ^ 2 := by rw [hw2]; ring
+  have hDpos : 0 < w ^ 2 - e ^ 2 * t ^ 2 := by
+    rw [← hD]
+    have : 0 ≤ (1 - e ^ 2) * t ^ 2 := mul_nonneg (by nlinarith) (sq_nonneg t)
+    linarith
+  have hL := ((hu.const_add 1).fun_div (hu.const_sub 1) (ne_of_gt hu1)).log
+    (ne_of_gt (div_pos hu2 hu1))
+  have hS := (hL.const_mul (e * dec 5 1)).sinh
+  rw [← hwdef] at hS
+  have hcosh : Real.sqrt (1 + grid2geo_sigma t e ^ 2)
+      = Real.cosh ((e * dec 5 1) * Real.log ((1 + e * t / w) / (1 - e * t / w))) := by
+    unfold grid2geo_sigma
+    simp only [sinh_def, log_def, sqrt_def, pown_def]
+    rw [← hwdef, add_comm, ← Real.cosh_sq, Real.sqrt_sq (Real.cosh_pos _).le]
+  rw [hcosh, hD]
+  refine HasDerivAt.congr_deriv (f' := _) hS ?_
+  rw [dec_5_1]
+  have hwne : w ≠ 0 := ne_of_gt hw
+  have h1ne : 1 - e * t / w ≠ 0 := ne_of_gt hu1
+  have h2ne : 1 + e * t / w ≠ 0 := ne_of_gt hu2
+  have hDne : w ^ 2 - e ^ 2 * t ^ 2 ≠ 0 := ne_of_gt hDpos
+  have h1ne' : w - e * t ≠ 0 := by
+    intro h0; apply h1ne; field_simp; linarith
+  have h2ne' : w + e * t ≠ 0 := by
+    intro h0; apply h2ne; field_simp; linarith
+  field_simp
+  ring
+
+/-- C02 stretch `f1tn_is_derivative`: for 0 ≤ e < 1 (and `ecc1sq = e²`), the value the call site
+computes, `f1tn(t) = grid2geo_f1tn t e ecc1sq t`, is the derivative at `t` of
+`x ↦ x·√(1+σ(x)²) − σ(x)·√(1+x²)`. -/
+theorem f1tn_is_derivative (e esq t : ℝ) (he0 : 0 ≤ e) (he1 : e < 1) (hsq : esq = e ^ 2) :
+    HasDerivAt
+      (fun x => x * Real.sqrt (1 + grid2geo_sigma x e ^ 2)
+        - grid2geo_sigma x e * Real.sqrt (1 + x ^ 2))
+      (grid2geo_f1tn t e esq t) t := by
+  subst hsq
+  have hσ := sigma_hasDerivAt e t he0 he1
+  have hwd := hasDerivAt_sqrt_one_add_sq t
+  have hpos : (0 : ℝ) < 1 + t ^ 2 := by positivity
+  have hCpos : (0 : ℝ) < 1 + grid2geo_sigma t e ^ 2 := by positivity
+  have hC := ((hσ.fun_pow 2).const_add 1).sqrt (ne_of_gt hCpos)
+  have hF := ((hasDerivAt_id t).fun_mul hC).fun_sub (hσ.fun_mul hwd)
+  unfold grid2geo_f1tn
+  simp only [sqrt_def, pown_def, pyfloat]
+  refine hF.congr_deriv ?_
+  simp only [id]
+  generalize grid2geo_sigma t e = S at *
+  set w := Real.sqrt (1 + t ^ 2) with hwdef
+  set C := Real.sqrt (1 + S ^ 2) with hCdef
+  have hw : 0 < w := Real.sqrt_pos.mpr hpos
+  have hw2 : w ^ 2 = 1 + t ^ 2 := Real.sq_sqrt hpos.le
+  have hC0 : 0 < C := Real.sqrt_pos.mpr hCpos
+  have hDpos : 0 < 1 + (1 - e ^ 2) * t ^ 2 := by
+    have : 0 ≤ (1 - e ^ 2) * t ^ 2 := mul_nonneg (by nlinarith) (sq_nonneg t)
+    linarith
+  set D := 1 + (1 - e ^ 2) * t ^ 2 with hDdef
+  have hwne := ne_of_gt hw
+  have hCne := ne_of_gt hC0
+  have hDne := ne_of_gt hDpos
+  field_simp
+  linear_combination 2 * (C * w - t * S) * hDdef - 2 * (C * w - t * S) * (1 - e ^ 2) * hw2
+
+/-- the same, phrased for the function whose zero is sought: `t ↦ ftn(t)` as the call site
+evaluates it (`grid2geo_ftn t e t1 t`) has derivative `f1tn(t)`; so
+`newtonMap = t − f(t)/f′(t)` is Newton's method. -/
+theorem ftn_hasDerivAt (e esq t1 t : ℝ) (he0 : 0 ≤ e) (he1 : e < 1) (hsq : esq = e ^ 2) :
+    HasDerivAt (fun x => grid2geo_ftn x e t1 x) (grid2geo_f1tn t e esq t) t := by
+  have h := (f1tn_is_derivative e esq t he0 he1 hsq).sub_const t1
+  exact h
+
+/-- `f1tn > 0` whenever `ecc1sq < 1` (so the Newton quotient is a genuine division) -/
+theorem f1tn_pos (tn e esq t : ℝ) (h : esq < 1) : 0 < grid2geo_f1tn tn e esq t := by
+  unfold grid2geo_f1tn
+  simp only [sqrt_def, pown_def, pyfloat]
+  generalize grid2geo_sigma tn e = S
+  have h1 := abs_lt_sqrt_one_add_sq S
+  have h2 := abs_lt_sqrt_one_add_sq tn
+  have h3 : S * tn < Real.sqrt (1 + S ^ 2) * Real.sqrt (1 + tn ^ 2) :=
+    calc S * tn ≤ |S * tn| := le_abs_self _
+      _ = |S| * |tn| := abs_mul _ _
+      _ < _ := mul_lt_mul'' h1 h2 (abs_nonneg _) (abs_nonneg _)
+  have hw : 0 < Real.sqrt (1 + t ^ 2) := Real.sqrt_pos.mpr (by positivity)
+  have hD : 0 < 1 + (1 - esq) * t ^ 2 := by
+    have : 0 ≤ (1 - esq) * t ^ 2 := mul_nonneg (by linarith) (sq_nonneg t)
+    linarith
+  exact mul_pos (by linarith) (div_pos (mul_pos (by linarith) hw) hD)
+
+/-- unconditional form of `newton_fixed_point` for `ecc1sq < 1` -/
+theorem newton_fixed_point' (ell : Ellipsoid) (t1 t : ℝ) (h : ell.ecc1sq < 1) :
+    newtonMap ell t1 t = t ↔
+      t * Real.sqrt (1 + grid2geo_sigma t ell.ecc1 ^ 2)
+        - grid2geo_sigma t ell.ecc1 * Real.sqrt (1 + t ^ 2) = t1 :=
+  newton_fixed_point ell t1 t (ne_of_gt (f1tn_pos t ell.ecc1 ell.ecc1sq t h))
+
+/-- the hypotheses of `f1tn_is_derivative` hold for the shipped GRS80 ellipsoid -/
+example : 0 ≤ grs80.ecc1 ∧ grs80.ecc1 < 1 ∧ grs80.ecc1sq = grs80.ecc1 ^ 2 := by
+  have h1 : grs80.ecc1 = Real.sqrt grs80.ecc1sq := rfl
+  have h2 : grs80.ecc1sq = (1 / dec 298257222101 9) * (2 - 1 / dec 298257222101 9) := rfl
+  have h3 : 0 ≤ grs80.ecc1sq ∧ grs80.ecc1sq < 1 := by
+    rw [h2]; simp only [dec]; norm_num
+  rw [h1]
+  refine ⟨Real.sqrt_nonneg _, ?_, (Real.sq_sqrt h3.1).symm⟩
+  rw [Real.sqrt_lt' (by norm_num)]
+  simpa using h3.2
+
+/-! ## Satisfiability of the hypotheses -/
+
+theorem trunc_natCast (k : ℕ) : trunc (k : ℝ) = k := by
+  unfold trunc
+  rw [if_neg (not_lt.mpr (Nat.cast_nonneg k))]
+  simp
+
+/-- a valid UTM input (zone 55, mixed-case hemisphere) -/
+example : Valid 55 500000 6000000 "South" utm := by
+  refine ⟨?_, by norm_num, by norm_num, Or.inr strLower_examples.1⟩
+  unfold ZoneOK
+  rw [if_neg (by decide)]
+  have : trunc (55 : ℝ) = 55 := by exact_mod_cast trunc_natCast 55
+  rw [this]; norm_num
+
+/-- an invalid hemisphere string is rejected -/
+example (ell : Ellipsoid) : grid2geo 55 500000 6000000 "East" ell utm = .error .ValueError := by
+  apply invalid_raises
+  intro hv
+  rcases hv.hemi with h | h
+  · exact strLower_east.1 h
+  · exact strLower_east.2 h
+
+/-- the mirror pair of `hemisphere_mirror_utm` is simultaneously valid -/
+example : Valid 55 500000 (10000000 - 3000000) "south" utm ∧ Valid 55 500000 3000000 "north" utm := by
+  have hz : ZoneOK utm 55 := by
+    unfold ZoneOK
+    rw [if_neg (by decide)]
+    have : trunc (55 : ℝ) = 55 := by exact_mod_cast trunc_natCast 55
+    rw [this]; norm_num
+  exact ⟨⟨hz, by norm_num, by norm_num, Or.inr strLower_examples.2.2.1⟩,
+    ⟨hz, by norm_num, by norm_num, Or.inl strLower_examples.2.2.2.2.2.1⟩⟩
+
 end GeodeVerif.C02
+
+#print axioms GeodeVerif.C02.grid2geo_spec
+#print axioms GeodeVerif.C02.validation_logic
+#print axioms GeodeVerif.C02.beta_vs_ref
+#print axioms GeodeVerif.C02.delta1_small
+#print axioms GeodeVerif.C02.gs_inverse
+#print axioms GeodeVerif.C02.newton_target
+#print axioms GeodeVerif.C02.newton_step
+#print axioms GeodeVerif.C02.newton_exit
+#print axioms GeodeVerif.C02.f1tn_is_derivative
+#print axioms GeodeVerif.C02.hemisphere_mirror
+#print axioms GeodeVerif.C02.hemisphere_mirror_utm
+#print axioms GeodeVerif.C02.round11_close
+#print axioms GeodeVerif.C02.psf_call_site
+#print axioms GeodeVerif.C02.strLower_examples
